@@ -7,12 +7,15 @@ META = {
     "level": "other",
     "text": "Deductive (unbounded): utils.get_unique_indexes (keys = the distinct values, each once; result[v] an index holding v; match[v] = position of v among the "
             "keys) and utils.get_match_indexes (result[k] indexes an element of a equal to b[k]; no KeyError when b is contained in a) are verified from their AST with "
-            "loop invariants and a ghost witness function. Bounded stand-in on the real generation code (not counted as proved): for every function of the generated libraries (six shipped bases, random sub-bases through the "
+            "loop invariants and a ghost witness function; the shuffle / re-index region of duplicate_checker.main is verified against them: after the unique functions have been "
+            "shuffled every function still points at the unique entry that holds its own canonical string (uniq_fun[match_idx[f]] == all_fun[f], indices in range) and the unique list "
+            "has no repeated entry. Bounded stand-in on the real generation code (not counted as proved): for every function of the generated libraries (six shipped bases, random sub-bases through the "
             "ESR_VERIF hook) the recorded chain of substitutions, composed as convert_params/check_results compose it and parsed by an independent reader, "
             "maps the unique function's parameters to parameters at which the function equals its unique pointwise (5 generic points, mpmath); "
             "'nan' entries only where the unique has strictly fewer parameters; uniques pairwise distinct, parameters without gaps; all per-function "
-            "files have one line per function. The propagation through do_sympy / duplicate_checker.main and the per-step contract of sympy_simplify are "
-            "covered by the bounded part only.",
+            "files have one line per function. The propagation of the substitution chains through do_sympy and the round files, the chain assembly in duplicate_checker.main "
+            "(all_inv_subs = [[]] * ntot with rebinding) and the per-step contract of sympy_simplify are covered by the bounded part only; the cancellation of chains is C17, the "
+            "repair step check_results is exercised by C13/C15.",
     "note": "Bounded by complexity and bases listed in the evidence; numeric oracle independent of sympy simplification. A-sympy for parsing only.",
     "technique": "contract-based deductive verification of the index bookkeeping (AST->VC->SMT) + bounded stand-in of the library contract on the real code",
 }
@@ -40,6 +43,12 @@ def check(run):
         failed_all += failed
     if D.canary(run, "generation/utils.py", "get_unique_indexes", c_utils.get_unique_indexes_contract) is False:
         raise RuntimeError("canary verified: engine vacuous on get_unique_indexes")
+    st, failed, eng = D.verify_function(run, "generation/duplicate_checker.py", "main", c_utils.shuffle_contract, timeout_ms=8000, tag="shuffle",
+                                        note="region: from the get_unique_indexes call to match_idx (rank-0 branch); get_unique_indexes through its verified contract, "
+                                             "np.random.shuffle as an in-place permutation (A-ext); ghost lemma: inv is the inverse permutation")
+    failed_all += failed
+    if st != "unsupported" and D.canary(run, "generation/duplicate_checker.py", "main", c_utils.shuffle_contract) is False:
+        raise RuntimeError("canary verified: engine vacuous on the shuffle region")
     run.trust("pyvc", "z3 5.1.0")
     run.assume("A-str: strings are abstract labels with equality", "A-ext: OrderedDict / set / dict comprehension models of pyvc (insertion order, membership)")
     groups = genjobs.job_groups(tier, run.seed, per_lib_sample=2500 if tier == "quick" else None)
